@@ -183,6 +183,7 @@ def run(ctx, res):
         nnm.run_replay(ctx, res, lambda c: [w for w,_ in oracle_defs(c)])
         return
     genarith.regenerate(ctx.pid, "nnm", res)
+    genarith.regenerate(ctx.pid, "nnm_masks", res)      # whole-function skeletons + boundary conventions (p = 0 / p = 1 rules)
     genarith.regenerate(ctx.pid, "nnm_products", res)   # the product expressions themselves   # regenerated tie: lam_to_eta, eta_to_lam, optimal_comparison
     cases, cr = nnm.run_corr(ctx.pid, ctx.rng, ctx.n(900, 12000), maxlen=ctx.n(12, 14))
     res.corr.append(("NonnegMean.test/estim/bet vs NNM.run_test", cr, nnm.case_json))
